@@ -221,6 +221,16 @@ def gen_plan(prop, tier, rng, i):
 def _gen_query(rng, cfg, idxs, nreaders, fields, with_rf):
     r = rng.random()
     rd = rng.randrange(nreaders)
+    if rng.random() < 0.12 and len(idxs) >= 2:
+        # forward fill from a position inside the file of the NEXT sample but before that sample: the value must come
+        # from the previous file
+        srt = sorted(set(idxs))
+        pairs = [(a_, b_) for a_, b_ in zip(srt, srt[1:]) if cfg.file_T(a_) != cfg.file_T(b_)
+                 and max(a_ + 1, cfg.first_of(cfg.file_T(b_))) <= b_ - 1]
+        if pairs:
+            a_, b_ = rng.choice(pairs)
+            q_ = rng.choice([max(a_ + 1, cfg.first_of(cfg.file_T(b_))), b_ - 1])
+            return {"op": "mread", "r": rd, "a": q_, "b": rng.choice([q_, None, b_]), "cols": None, "method": "ffill"}
     if r < 0.55:
         k = rng.choice(idxs)
         a = k + rng.choice([0, 0, -1, 1, -3, 2])
